@@ -77,6 +77,25 @@ Proof.
   destruct (gen_take (subnet_next (width ver)) k g) as [l|]; reflexivity.
 Qed.
 
+(* the symbol that stands for list(cidr.subnet(prefix, count=count)) in the SubnetSplitter unit (Model/SrcPreludeSplitter.v, check
+   C20) is the regenerated generator, run for `count` elements (the model's reading of list(..): the loop `while i < count`
+   yields at most count elements) *)
+From NV Require Model.Splitter Model.SrcPreludeSplitter.
+Lemma splitter_list_subnet_src cidr prefix count fmt :
+  SrcPreludeSplitter.py_list_subnet cidr prefix count =
+    (do og <- src_IPNetwork_subnet_start (nver cidr) (width (nver cidr)) (nval cidr) (nplen cidr) prefix count fmt;
+     match og with
+     | None => Ok []
+     | Some st => py_gen_take (subnet_next_src (nver cidr) (nval cidr) (nplen cidr)) (Z.to_nat (snd (fst (fst st)))) st
+     end).
+Proof.
+  unfold SrcPreludeSplitter.py_list_subnet, Splitter.subnet_list. rewrite src_subnet_start_ok.
+  change (Merge.cblk_of_net cidr) with (nval cidr, nplen cidr).
+  destruct (subnet_start (width (nver cidr)) (nval cidr, nplen cidr) prefix count) as [[g|]|]; [|reflexivity|reflexivity].
+  cbn [omap option_map bind]. change (snd (fst (fst (sg_state g)))) with (sg_count g).
+  rewrite src_subnet_take_loop_ok. reflexivity.
+Qed.
+
 (* ---- next / previous ---- *)
 Section Wf.
 Variables ver v p : Z.
@@ -163,8 +182,16 @@ Lemma C11_subnet_tie_ok :
   (forall ver v p step, valid_ver ver = true -> 0 <= p <= width ver -> 0 <= v < 2 ^ width ver ->
      src_IPNetwork_next ver (width ver) v p step = omap (wnet_net ver) (net_next (width ver) (v, p) step) /\
      src_IPNetwork_previous ver (width ver) v p step = omap (wnet_net ver) (net_previous (width ver) (v, p) step)) /\
-  (forall ver v p, (do it <- src_IPNetwork_iter_hosts ver (width ver) v p; start_it it) = iter_hosts ver (v, p)).
+  (forall ver v p, (do it <- src_IPNetwork_iter_hosts ver (width ver) v p; start_it it) = iter_hosts ver (v, p)) /\
+  (forall cidr prefix count fmt,
+     SrcPreludeSplitter.py_list_subnet cidr prefix count =
+       (do og <- src_IPNetwork_subnet_start (nver cidr) (width (nver cidr)) (nval cidr) (nplen cidr) prefix count fmt;
+        match og with
+        | None => Ok []
+        | Some st => py_gen_take (subnet_next_src (nver cidr) (nval cidr) (nplen cidr)) (Z.to_nat (snd (fst (fst st)))) st
+        end)).
 Proof.
   split; [exact src_subnet_start_ok|]. split; [exact src_subnet_next_ok|]. split; [exact src_subnet_take_ok|].
-  split; [intros; split; [apply src_net_next_ok|apply src_net_previous_ok]; assumption|exact src_iter_hosts_ok].
+  split; [intros; split; [apply src_net_next_ok|apply src_net_previous_ok]; assumption|].
+  split; [exact src_iter_hosts_ok|exact splitter_list_subnet_src].
 Qed.
